@@ -43,8 +43,9 @@ contract(M + "OptimizationResult.__init__",
          params=dict(kwargs='{"evolution": "list[Population]", "rates": "list[float]", "best_solution": "opt[Agent]", "task_type?": "TaskType"}'),
          cases=KW_CASES,
          lets={"B0": "kwargs['best_solution']"},
-         assigns=["self.evolution", "self.rates", "self.best_solution"],
-         ensures=[("history-kept", "len(self.evolution) == len(kwargs['evolution']) and"
+         assigns=["self.evolution", "self.rates", "self.best_solution", "self.task_type"],
+         ensures=[("direction-recorded", "self.task_type == " + TT),
+                  ("history-kept", "len(self.evolution) == len(kwargs['evolution']) and"
                                    " all(self.evolution[k] is kwargs['evolution'][k] for k in range(len(self.evolution)))"),
                   ("rates-kept", "len(self.rates) == len(kwargs['rates']) and"
                                  " all(self.rates[k] == kwargs['rates'][k] for k in range(len(self.rates)))"),
@@ -53,5 +54,5 @@ contract(M + "OptimizationResult.__init__",
                                                  " self.best_solution.fitness == B0.fitness)"),
                   ("best-user-sign-cost", "implies(B0 is not None, self.best_solution.cost =="
                                           " (B0.cost if " + TT + " == TaskType.MIN else -B0.cost))"),
-                  ("objects-untouched", "heap_unchanged('self.evolution', 'self.rates', 'self.best_solution')")],
+                  ("objects-untouched", "heap_unchanged('self.evolution', 'self.rates', 'self.best_solution', 'self.task_type')")],
          properties=["C02", "C03", "C12", "C15"])
